@@ -706,6 +706,10 @@ pub fn run(ctx: &mut Ctx, which: &str) {
                 texts.push(("type-size".into(), format!("#[{sh}, align(4)] pub type T {{ pub a: u32, }}")));
                 texts.push(("extern-size".into(), format!("#[{sh}, align(4)] extern type X;\npub type T {{ pub x: X, }}")));
             }
+            // layout attributes on an enum: its size and alignment are those of its base type
+            for attr in ["size(8)", "align(16)", "packed", "size(4), align(4)"] {
+                texts.push(("enum-layout-attribute".into(), format!("#[{attr}] pub enum E: u32 {{ A, B, }}\n#[align(16)] pub type T {{ pub e: E, pub pad: [u8; 12], }}")));
+            }
             for sh in shapes("align", 16) {
                 texts.push(("type-align".into(), format!("#[{sh}] pub type T {{ pub a: u32, pub b: u32, pub c: u64, }}")));
                 texts.push(("extern-align".into(), format!("#[size(4), {sh}] extern type X;\npub type T {{ pub x: X, }}")));
